@@ -1,7 +1,7 @@
 (* Support for the PKCS#8 and PEM-container correspondence streams (C17, C14/C15 byte level). *)
 From Coq Require Import List NArith ZArith Bool.
 From Coq.Strings Require Import Byte.
-From Gopki.Model Require Import Bytes Base64 Der Asn1 Text Algs Pkcs8 Pem Glue Current.
+From Gopki.Model Require Import Bytes Base64 Der Asn1 Text Algs Pkcs8 Pem Glue Names Current.
 Import ListNotations.
 Open Scope N_scope.
 
@@ -137,3 +137,25 @@ Definition check_hash (c : hash_case) : list N :=
   ++ (match hc_seen c with HPanic => [2] | _ => [] end).
 Definition run_hashes (l : list hash_case) : list (nat * list N) :=
   filter (fun p => match snd p with [] => false | _ => true end) (combine (seq 0 (length l)) (map check_hash l)).
+
+
+(* ---- names (C18): a file of the directory, the explicit alias of its configuration if any, and what the implementation made of
+   it: None = not read as a configuration; Some (alias, artifact path written by a run) *)
+Record name_case := mkNameCase { nc_path : bytes; nc_explicit : bytes; nc_seen : option (bytes * bytes) }.
+Definition base_name (p : bytes) : bytes :=
+  match last_index 47 p with Some i => skipn (S i) p | None => p end.
+(* codes: 1 read / ignored differs from the suffix rule; 2 alias differs; 3 artifact path differs; 4 the derivation would panic *)
+Definition check_name (c : name_case) : list N :=
+  if negb (is_config_name (base_name (nc_path c))) then (match nc_seen c with None => [] | Some _ => [1] end)
+  else match nc_seen c with
+       | None => [1]
+       | Some (alias, pem) =>
+         (match nc_explicit c, alias_of_path (nc_path c) with
+          | _ :: _, _ => if bytes_eqb alias (nc_explicit c) then [] else [2]
+          | [], GOk a => if bytes_eqb alias a then [] else [2]
+          | [], _ => [4]
+          end)
+         ++ (match artifact_path (nc_path c) with GOk a => if bytes_eqb pem a then [] else [3] | _ => [4] end)
+       end.
+Definition run_names (l : list name_case) : list (nat * list N) :=
+  filter (fun p => match snd p with [] => false | _ => true end) (combine (seq 0 (length l)) (map check_name l)).
